@@ -11,12 +11,14 @@ CLAIMS = {
  },
  'C08': {
   'category': 'proof',
-  'technique': 'Lean 4 proof that the line_ended look-ahead equals the spec rule for every text + generated trigger table vs spec + differential correspondence + spec-lexer oracle',
+  'technique': 'Lean 4 proof that the line_ended look-ahead equals the spec rule for every text and that next_token inserts `;` exactly when the flag is set and the line ended + generated trigger table vs spec + differential correspondence + spec-lexer oracle',
   'text': 'Theorem lineEnded_iff_spec: for every character sequence the model of Scanner::line_ended answers true exactly when the rest of the line is a line end in the sense of the Go spec '
           '(blanks, newline-free general comments skipped; newline, EOF, line comment, general comment reaching a newline end the line). trigger_table_partial: the trigger table regenerated from scanner.rs equals the spec list '
           'except for `package` (trigger_package_cex; known finding K1, pinned by a unit test). The model is validated against the real scanner on the exhaustive grid token kind x line-ending context and on random lines; '
-          'newline vs explicit-semicolon renderings of every corpus program are parsed to equal trees.',
-  'note': 'The whole-scanner statement (flag set after trigger, saved/restored on backtracking) is covered by correspondence + oracle, not yet by a theorem.',
+          'newline vs explicit-semicolon renderings of every corpus program are parsed to equal trees.'
+          ' Whole step: synthetic_semicolon / no_synthetic_semicolon (next_token returns the automatic `;` at the current position, consuming nothing, exactly when the flag is set and the line has ended in the spec sense; otherwise it scans from the text), '
+          'flag_after_token (after any scanned token the flag is the trigger table on that token), flag_after_synthetic (one `;` per line end), goback_restores_flag (backtracking restores the saved flag).',
+  'note': 'How the parser uses the scanner (which marks it saves) is covered by correspondence + oracle.',
  },
  'C17': {
   'category': 'proof',
@@ -28,18 +30,20 @@ CLAIMS = {
  },
  'C09': {
   'category': 'proof',
-  'technique': 'Lean 4 theorems about the number-scanner model (text = source run, kind, underscore rule) + exhaustive/sampled differential correspondence + regular-expression oracle of the spec EBNF',
-  'text': 'Proved for every input: the literal text is a prefix of the remaining input and the scanner advances by its length (number_text_is_source), the kind is Integer/Float/Imag decided by fraction/exponent/i (numFinish_text), '
-          'digit runs obey the underscore rule (scanDigitsGo_*). The full equivalence accepted <=> int_lit|float_lit|imaginary_lit is stated over Spec/Numbers.lean and is decided here by exhaustive comparison (all strings to length 4 quick / 5 thorough over the property alphabet, '
-          'sampled to length 7, structured literals to length 14) of implementation, model and an independent regex transcription of the EBNF; partial proof.',
-  'note': 'Enumeration bound is below the property text (6/7) for run time; lengths beyond are sampled, not exhausted.',
+  'technique': 'Lean 4 proof that the number-scanner model accepts exactly the spec literals with the spec kind (soundness + completeness, unbounded) + exhaustive/sampled differential correspondence + regular-expression oracle of the spec EBNF',
+  'text': 'Proved for every input, no bound on length: number_sound (whatever scan_lit_number accepts when called as scan_token calls it is an int_lit / float_lit / imaginary_lit of Spec/Numbers.lean, of the reported kind), '
+          'number_complete (every literal of the spec followed by a character that cannot continue a number is accepted whole with the spec kind and its own text), number_iff (the two as an equivalence); '
+          'number_text_is_source (the text is a prefix of the remaining input, the scanner advances by its length), scanDigitsGo_sound/_complete (the underscore rule), facts_of_ok / with_complete (the eleven checks of the staged scanner, inverted and replayed). '
+          'The model is tied to scanner.rs by exhaustive comparison (all strings to length 4 quick / 5 thorough over the property alphabet, sampled to length 7, structured literals to length 14) of implementation, model and an independent regex transcription of the EBNF.',
+  'note': 'Enumeration bound of the correspondence is below the property text (6/7) for run time; lengths beyond are sampled. The theorems have no bound. Spec/Numbers.lean (the EBNF as inductive predicates) is trusted.',
  },
  'C10': {
   'category': 'proof',
-  'technique': 'Lean 4 theorems about the rune/string scanner model (raw strings iff spec, verbatim text) + exhaustive/sampled differential correspondence + spec recogniser oracle',
-  'text': 'Proved for every input: raw strings are accepted exactly per the spec and kept verbatim (raw_iff_spec, raw_sound); every accepted rune / interpreted string text is the source text including quotes (rune_text_is_source, string_text_is_source). '
-          'Acceptance of escapes (digit counts, code point ranges, quote-specific escapes) is decided by exhaustive comparison of implementation, model and an independent recogniser over all bodies to length 3 quick / 4 thorough x 3 quote kinds, sampled to 6, and structured escapes of every form; partial proof.',
-  'note': 'Enumeration bound is below the property text (5/6) for run time; longer bodies are sampled/structured.',
+  'technique': 'Lean 4 proof that the rune/string scanner model accepts exactly the spec literals, verbatim (iff, unbounded, all three quote kinds) + exhaustive/sampled differential correspondence + spec recogniser oracle',
+  'text': 'Proved for every input, no bound on length: rune_iff_spec / rune_sound / rune_complete (scan_lit_rune accepts exactly one unicode_value or byte_value between single quotes: listed escapes only, exact digit counts, code point at most 0x10FFFF and no surrogate, octal at most 255, \\\' allowed and \\" not, no newline), '
+          'string_iff_spec / string_sound / string_complete (the same for interpreted strings with \\" allowed and \\\' not), raw_iff_spec, stringLit_iff (both string kinds: accepted as t iff t is a string_lit of Spec/Strings.lean and a prefix of the text); '
+          'rune_text_is_source, string_text_is_source (text kept verbatim including quotes). The model is tied to scanner.rs by exhaustive comparison of implementation, model and an independent recogniser over all bodies to length 3 quick / 4 thorough x 3 quote kinds, sampled to 6, and structured escapes of every form.',
+  'note': 'Enumeration bound of the correspondence is below the property text (5/6) for run time; longer bodies are sampled/structured. The theorems have no bound. Spec/Strings.lean is trusted.',
  },
  'C04': {
   'category': 'proof',
@@ -55,8 +59,9 @@ CLAIMS = {
   'technique': 'Lean 4 proof of the offset-to-(line,column) lookup (binary search invariant, no underflow for any table) + differential correspondence on rejected inputs + location oracle',
   'text': 'binarySearch_sorted, lineInfo_sorted, lineInfo_total, lineInfo_profile: for every sorted line table and offset the column is the true column, the line is the true line minus one from line 2 on (known finding K2, pinned by a unit test; stated as theorem and counterexample), '
           'and the lookup never panics or wraps for any table. The rest of the property (crate error type, path, location of the unexpected token, Display returns) is decided on rejected inputs (mutated corpus programs, soup, unterminated tokens at every line, multi-line tokens and backtracking before the error, nesting 62-200) '
-          'by model/implementation correspondence on (variant, line, col, token) and an oracle that looks the token text up at the reported place; partial proof.',
-  'note': 'The invariant that the scanner keeps the table sorted and equal to the offsets after each scanned newline is not yet a theorem (correspondence compares the final table on every scan case).',
+          'by model/implementation correspondence on (variant, line, col, token) and an oracle that looks the token text up at the reported place; partial proof.'
+          ' Props/Lines.lean: linesOK_next / linesOK_goback (every successful scanner step and every backtracking keeps the line table exactly the offsets after the newlines before the scanner position), sorted_of_linesOK, lineOf_reachable, mem_lines: the sortedness hypothesis holds in every reachable scanner state.',
+  'note': 'The table after a *failed* token (add_line for the newlines of an unterminated raw string / comment) is compared by correspondence on every scan case, not by theorem.',
  },
  'C20': {
   'category': 'proof',
